@@ -4,6 +4,7 @@
 -/
 import PjVerif.Lemmas.GraphTasks
 import PjVerif.Lemmas.TaskSrcD
+import PjVerif.Lemmas.WbsSrcC
 namespace Pj
 
 /-- no accepted or rejected operation can make two different tasks of one WBS / one detached tree share an id -/
@@ -81,5 +82,20 @@ theorem C05_source_has_id_intersection (s : G) (st : PyLite.PState) (hh : st.hea
     (h : hasIdIntersection s p chs = some b) (F : Nat) (hF : s.fuel + 2 ≤ F) :
     (TaskSrc.Hd F).fnV Extracted.fn_has_id_intersection [.atom (.ref p), TaskSrc.refs chs] st = .ok (.atom (.bool b), st) :=
   TaskSrc.has_id_intersection_spec s st hh p chs b h F hF
+
+/-! ### the tie of `WBS` (wbs.py) to the current source, by translation (tools/extract_wbs.py → Extracted/WbsSrc.lean, Lemmas/WbsSrc*.lean);
+    the program of wbs.py is layered over the program of task.py: a call into task.py runs the translated setters of Lemmas/TaskSrc*.lean -/
+
+/-- the translated `WBS.tasks` returns the model's member list (`wbsTasks`: the depth-first enumeration below the hidden root) -/
+theorem C05_source_tasks (s : G) (st : PyLite.PState) (hh : st.heap = TaskSrc.encHeap s) (w : Uid) (r : List Uid)
+    (h : wbsTasks s w = some r) (F : Nat) (hF : s.n + 3 ≤ F) :
+    WbsSrc.interpTasks F w st = .ok (TaskSrc.refs r, st) :=
+  WbsSrc.interpTasks_eq s st hh w r h F hF
+
+/-- the translated `WBS.__getitem__` is the model's `wbsGet`: the first member with that id, RuntimeError when there is none -/
+theorem C05_source_getitem (s : G) (st : PyLite.PState) (hh : st.heap = TaskSrc.encHeap s) (w : Uid) (i : Int) (F : Nat)
+    (hF : s.n + 3 ≤ F) (hrec : wbsGet s w i ≠ .error (.crash .recursion)) :
+    WbsSrc.interpGetitem F w (.atom (TaskSrc.idA i)) st = WbsSrc.getResult st (wbsGet s w i) :=
+  WbsSrc.interpGetitem_eq s st hh w i F hF hrec
 
 end Pj
